@@ -11,8 +11,8 @@ missed=[m['id'] for m in ran if not m['matrix']['caught_by']]
 summary=(f"{n} changes are archived; the matrix was run on {len(ran)} of them. {len(caught)} are reported (exit 1) by at least one check, "
          f"{len(own)} by the check of the property they were written against" + (f"; not reported: {', '.join(missed)}." if missed else "."))
 s9=open('/verif/docs_src/design_s9.md').read().replace('SEEDTABLE', table).replace('SEEDSUMMARY', summary)
-head=head.replace("8 genuine defects were found by\nthe checks, confirmed natively and repaired by `fix:` commits; 48 seeded\nchanges", f"8 genuine defects were found by\nthe checks, confirmed natively and repaired by `fix:` commits; {n} seeded\nchanges")
-head=head.replace("7 genuine defects were found by\nthe checks, confirmed natively and repaired by `fix:` commits; 32 seeded\nchanges", f"8 genuine defects were found by\nthe checks, confirmed natively and repaired by `fix:` commits; three further\nfamilies of genuine defects are recorded as known findings; {n} seeded\nchanges")
+head=head.replace("8 genuine defects were found by\nthe checks, confirmed natively and repaired by `fix:` commits; 48 seeded\nchanges", f"9 genuine defects were found by\nthe checks, confirmed natively and repaired by `fix:` commits; three further families of genuine defects are recorded as known findings; {n} seeded\nchanges")
+head=head.replace("7 genuine defects were found by\nthe checks, confirmed natively and repaired by `fix:` commits; 32 seeded\nchanges", f"9 genuine defects were found by\nthe checks, confirmed natively and repaired by `fix:` commits; three further\nfamilies of genuine defects are recorded as known findings; {n} seeded\nchanges")
 head=head.replace("`/verif/seeded/`, every one of them is reported by at least one check\n(section 9).", f"`/verif/seeded/`; {len(caught)} of the {len(ran)} run through the check matrix are reported by at least one check\n(section 9).")
 head=head.replace("current tree (with two `KNOWN-FINDING` lines);","current tree (with `KNOWN-FINDING` lines for the recorded findings);")
 sep='\n---------------------------------------------------------------------------\n\n'
